@@ -11,62 +11,89 @@ EVENT_NAMES = {1: 'storage got >1 packet', 2: 'sink ring wrapped', 3: 'filter ri
 
 
 def cfg(scenario, bound, **params):
-    return {'scenario': scenario, 'bound': bound, 'params': params}
+    """bound: int n = preemption bound n (CHESS: switches at blocking points are free);
+    'Dn' = delay bound n (every departure from the default scheduler, incl. early wake-ups, costs 1)"""
+    model = 'preemption'
+    if isinstance(bound, str):
+        model, bound = 'delay', int(bound[1:])
+    return {'scenario': scenario, 'bound': bound, 'model': model, 'params': params}
 
 
-def run_cfgs(rep, exe, cfgs, budget_s, label):
+def run_cfgs(rep, exe, cfgs, budget_s, label, par=1):
+    """par == 1: configurations one after the other, each explored by 16 worker processes;
+    par > 1: `par` configurations at a time, one worker process each (many small configurations)."""
+    import concurrent.futures as cf
     t_end = time.time() + budget_s
     tot = dict(executions=0, steps=0, points=0)
     per, samples, outcomes = [], [], 0
     events = {}
-    exhaustive = True
-    edges = 0
+    state = {'exhaustive': True, 'edges': 0, 'skipped': 0}
     tmpd = tempfile.mkdtemp(prefix='vs-', dir=f'{C.V}/build')
-    for i, c in enumerate(cfgs):
+
+    def one(ic):
+        i, c = ic
         left = t_end - time.time()
         if left < 2:
-            exhaustive = False
-            per.append({**c, 'status': 'skipped: global deadline reached'})
-            continue
+            return i, c, None, 'skipped'
         out = f'{tmpd}/{i}.json'
-        cmd = [exe, '--scenario', c['scenario'], '--bound', str(c['bound']), '--jobs', str(C.NPROC), '--deadline', f'{left:.0f}', '--out', out]
+        cmd = [exe, '--scenario', c['scenario'], '--bound', str(c['bound']), '--jobs', str(C.NPROC if par == 1 else 1), '--deadline', f'{left:.0f}', '--out', out]
+        if c['model'] == 'delay':
+            cmd.append('--delay-bounding')
         for k, v in c['params'].items():
             cmd += ['--param', f'{k}={v}']
         p = subprocess.run(cmd, stdout=subprocess.PIPE, stderr=subprocess.PIPE, text=True)
         if p.returncode not in (0, 1) or not os.path.exists(out):
-            rep.violation(f"{rep.pid}:{c['scenario']}:engine-failure", f"explorer exited {p.returncode}: {p.stderr[-400:]}", {'engine': 'vsched', **c})
-            exhaustive = False
-            continue
+            return i, c, None, f'explorer exited {p.returncode}: {p.stderr[-400:]}'
         d = json.load(open(out))
         os.unlink(out)
+        return i, c, d, ''
+
+    if par == 1:
+        results = map(one, enumerate(cfgs))
+    else:
+        ex = cf.ThreadPoolExecutor(max_workers=par)
+        results = ex.map(one, enumerate(cfgs))
+    for i, c, d, err in results:
+        if d is None:
+            state['exhaustive'] = False
+            if err == 'skipped':
+                state['skipped'] += 1
+            else:
+                rep.violation(f"{rep.pid}:{c['scenario']}:engine-failure", err, {'engine': 'vsched', **c})
+            continue
         tot['executions'] += d['executions']; tot['steps'] += d['steps']; tot['points'] += d['choice_points']
         outcomes += d['distinct_outcomes']
-        edges = max(edges, d['edges_covered'])
-        exhaustive &= bool(d['exhaustive']) or bool(d['violations'])
+        state['edges'] = max(state['edges'], d['edges_covered'])
+        state['exhaustive'] &= bool(d['exhaustive']) or bool(d['violations'])
         for e, n in enumerate(d['event_counts']):
             if n:
                 events[EVENT_NAMES.get(e, f'event{e}')] = events.get(EVENT_NAMES.get(e, f'event{e}'), 0) + n
-        per.append({'scenario': c['scenario'], 'bound': c['bound'], 'params': c['params'], 'executions': d['executions'], 'choice_points': d['choice_points'],
-                    'max_choice_points_per_execution': d['max_choice_points'], 'distinct_outcomes': d['distinct_outcomes'], 'exhaustive': d['exhaustive'],
-                    'status_counts': {k: v for k, v in d['status_counts'].items() if v}, 'wall_s': d['wall_s']})
+        if len(per) < 400:
+            per.append({'scenario': c['scenario'], 'bound': c['bound'], 'bound_kind': c['model'], 'params': c['params'], 'executions': d['executions'], 'choice_points': d['choice_points'],
+                        'max_choice_points_per_execution': d['max_choice_points'], 'distinct_outcomes': d['distinct_outcomes'], 'exhaustive': d['exhaustive'],
+                        'status_counts': {k: v for k, v in d['status_counts'].items() if v}, 'wall_s': d['wall_s']})
         if d['unconfirmed']:
             rep.unconfirmed.append({'scenario': c['scenario'], 'params': c['params'], 'count': d['unconfirmed']})
         for v in d['violations']:
             clause = v['clause']
             fp = clause if clause[:1] == 'C' and clause[3:4] == ':' else f"{rep.pid}:{c['scenario']}:{clause}"
             pstr = ' '.join(f'--param {k}={x}' for k, x in c['params'].items())
-            rep.violation(fp, f"{v['msg'][:600]} [scenario {c['scenario']} {c['params']} bound {c['bound']}, {v['deviations']} deviations, {v['count']} schedules]",
-                          {'engine': 'vsched', 'exe': os.path.basename(exe), 'scenario': c['scenario'], 'params': c['params'], 'bound': c['bound'], 'choices': v['choices'],
+            rep.violation(fp, f"{v['msg'][:600]} [scenario {c['scenario']} {c['params']} {c['model']} bound {c['bound']}, {v['deviations']} deviations, {v['count']} schedules]",
+                          {'engine': 'vsched', 'exe': os.path.basename(exe), 'scenario': c['scenario'], 'params': c['params'], 'bound': c['bound'], 'bound_kind': c['model'], 'choices': v['choices'],
                            'status': v['status'], 'confirmed_by_replay': v['confirmed_by_replay'],
                            'replay_cmd': f"{exe} --scenario {c['scenario']} {pstr} --replay '{v['choices']}'"})
-        if len(samples) < 10:
-            samples.append({'scenario': c['scenario'], 'params': c['params'], 'bound': c['bound'], 'executions': d['executions'],
-                            'example_schedule': 'default schedule (all choices 0) plus every placement of <= bound deviations'})
-    os.rmdir(tmpd)
+        if len(samples) < 10 and (i % max(1, len(cfgs) // 10) == 0):
+            samples.append({'scenario': c['scenario'], 'params': c['params'], 'bound': c['bound'], 'bound_kind': c['model'], 'executions': d['executions'],
+                            'schedules': 'default schedule (all choices 0) plus every placement of <= bound deviations'})
+    try:
+        os.rmdir(tmpd)
+    except OSError:
+        pass
     rep.coverage = {
         'states': tot['points'], 'transitions': tot['steps'], 'traces_validated_against_impl': tot['executions'],
-        'executions': tot['executions'], 'distinct_outcomes_summed_over_configurations': outcomes,
-        'exhaustive': exhaustive, 'repository_edges_covered': edges,
+        'executions': tot['executions'], 'configurations': len(cfgs), 'configurations_skipped_at_deadline': state['skipped'],
+        'distinct_outcomes_summed_over_configurations': outcomes,
+        'exhaustive': state['exhaustive'], 'repository_edges_covered': state['edges'],
         'rule': label + '; states = scheduling states at which more than one thread could be chosen, transitions = scheduling steps, every execution runs the real code',
         'events': events, 'bounds': {'configurations': per}, 'samples': samples or ['(none)'],
     }
@@ -85,22 +112,24 @@ def c04_cfgs(tier):
     base = dict(exposure=4)
     q = [cfg('c04', 1, n=3, ringf=2, ringx=8, **base),
          cfg('c04', 1, n=3, ringf=1, ringx=1, **base),
-         cfg('c04', 1, n=4, ringf=2, ringx=56, w=9, **base),            # 112-byte frames: size not a multiple of the payload
-         cfg('c04', 1, n=3, ringf=2, ringx=8, append_ms=25, **base),    # storage slower than the camera: writer sleeps on a full ring
+         cfg('c04', 1, n=4, ringf=2, ringx=56, w=9, **base),            # 112-byte frames
+         cfg('c04', 'D2', n=3, ringf=2, ringx=8, append_ms=25, **base), # storage slower than the camera: writer sleeps on a full ring
          cfg('c04', 1, n=3, ringf=2, ringx=8, exposure=25),             # camera slower than the sink poll
-         cfg('c04', 1, n=3, ringf=3, ringx=8, write_delay=15, tick_us=500, **base),
+         cfg('c04', 'D2', n=3, ringf=3, ringx=8, write_delay=6, **base),
          cfg('c04', 1, n=3, ringf=2, ringx=8, client=1, **base),        # monitoring client, fast
-         cfg('c04', 0, n=3, ringf=2, ringx=8, client=2, **base),        # slow client
-         cfg('c04', 0, n=2, n1=3, streams=2, ringf=2, ringx=8, **base),
-         cfg('c04', 2, n=2, ringf=1, ringx=1, **base)]
+         cfg('c04', 'D2', n=3, ringf=2, ringx=8, client=2, **base),     # slow client
+         cfg('c04', 'D2', n=3, ringf=3, ringx=8, client=4, **base),     # client holds regions
+         cfg('c04', 'D2', n=2, n1=3, streams=2, ringf=2, ringx=8, **base),
+         cfg('c04', 2, n=2, ringf=1, ringx=1, **base),
+         cfg('c04', 'D3', n=3, ringf=2, ringx=8, **base)]
     if tier == 'quick':
         return q
     t = list(q)
     t += [cfg('c04', 2, n=3, ringf=2, ringx=8, **base), cfg('c04', 2, n=3, ringf=1, ringx=1, **base),
-          cfg('c04', 2, n=3, ringf=2, ringx=8, append_ms=25, **base), cfg('c04', 2, n=3, ringf=2, ringx=8, client=1, **base),
-          cfg('c04', 1, n=4, ringf=3, ringx=8, client=4, **base), cfg('c04', 1, n=2, n1=3, streams=2, ringf=2, ringx=8, **base),
-          cfg('c04', 1, n=4, ringf=2, ringx=8, write_delay=15, tick_us=500, **base),
-          cfg('c04', 3, n=2, ringf=1, ringx=1, **base)]
+          cfg('c04', 'D3', n=3, ringf=2, ringx=8, append_ms=25, **base), cfg('c04', 2, n=3, ringf=2, ringx=8, client=1, **base),
+          cfg('c04', 'D3', n=4, ringf=3, ringx=8, client=4, **base), cfg('c04', 'D3', n=2, n1=3, streams=2, ringf=2, ringx=8, **base),
+          cfg('c04', 'D3', n=4, ringf=2, ringx=8, write_delay=6, **base), cfg('c04', 'D3', n=3, ringf=2, ringx=8, client=3, **base),
+          cfg('c04', 'D4', n=3, ringf=2, ringx=8, **base), cfg('c04', 3, n=2, ringf=1, ringx=1, **base)]
     return t
 
 
@@ -123,39 +152,43 @@ def c05_cfgs(tier):
 def c06_cfgs(tier):
     base = dict(exposure=4, n=3, ringf=2, ringx=8)
     progs = ['m', 'mm', 'p', 'pm', 'z', 'hm', 'mH', 'wm']
-    q = [cfg('c06', 0, ends=e, prog=p, **base) for e in ('ss', 'as', 'sa') for p in progs]
-    q += [cfg('c06', 1, ends='ss', prog='mm', **base), cfg('c06', 1, ends='as', prog='pm', **base), cfg('c06', 1, ends='ss', prog='m', **{**base, 'from': 1}),
-          cfg('c06', 1, ends='as', prog='mH', **base)]
+    q = [cfg('c06', 'D1', ends=e, prog=p, **base) for e in ('ss', 'as', 'sa') for p in progs]
+    q += [cfg('c06', 'D2', ends='ss', prog='mm', **base), cfg('c06', 'D2', ends='as', prog='pm', **base), cfg('c06', 'D2', ends='ss', prog='m', **{**base, 'from': 1}),
+          cfg('c06', 'D2', ends='as', prog='mH', **base), cfg('c06', 'D2', ends='sa', prog='hm', **base), cfg('c06', 1, ends='as', prog='m', **{**base, 'n': 2}),
+          cfg('c06u', 'D1', ends='s', prog='m', undrained_stop=1, **base)]
     if tier == 'quick':
         return q
     t = list(q)
     import itertools
     ops = 'mpzhw'
     allp = [''.join(x) for k in (1, 2, 3) for x in itertools.product(ops, repeat=k)]
-    t += [cfg('c06', 0, ends=e, prog=p, **base) for e in ('sss', 'asa', 'saa', 'aas') for p in allp]
-    t += [cfg('c06', 1, ends=e, prog=p, **base) for e in ('ss', 'as', 'sa', 'aa') for p in ('mm', 'pm', 'hm', 'mH', 'zm', 'pp')]
-    t += [cfg('c06', 2, ends='as', prog='m', **base), cfg('c06', 2, ends='ss', prog='p', **{**base, 'n': 2})]
+    t += [cfg('c06', 'D1', ends=e, prog=p, **base) for e in ('sss', 'asa', 'saa', 'aas') for p in allp]
+    t += [cfg('c06', 'D2', ends=e, prog=p, **base) for e in ('ss', 'as', 'sa', 'aa') for p in ('mm', 'pm', 'hm', 'mH', 'zm', 'pp', 'wm')]
+    t += [cfg('c06', 'D3', ends='as', prog='m', **base), cfg('c06', 'D3', ends='ss', prog='p', **base), cfg('c06', 1, ends='ss', prog='m', **{**base, 'n': 2}),
+          cfg('c06', 1, ends='as', prog='mH', **{**base, 'n': 2})]
     return t
 
 
 def c07_cfgs(tier):
     base = dict(exposure=4, ringf=2, ringx=8)
-    q = [cfg('c07', 1, n=1000000, variant=0, **base),                           # infinite acquisition, abort from a controller thread at every point
-         cfg('c07', 1, n=3, variant=0, **base),                                 # finite, may already be finished
-         cfg('c07', 1, n=1000000, variant=0, trigger=1, **base),                # camera waiting for a software trigger
-         cfg('c07', 1, n=1000000, variant=0, append_ms=40, **{**base, 'ringf': 1, 'ringx': 1}),  # ring full, source asleep
-         cfg('c07', 1, n=1000000, variant=0, avg=2, **base),                    # averaging active
-         cfg('c07', 1, n=1000000, variant=1, prog='mH', **base),                # client holds a mapped region across its own abort
-         cfg('c07', 1, n=3, variant=0, ctl_stop=1, **base),                     # stop from another thread on a finite acquisition
-         cfg('c07', 0, n=1000000, variant=2, **base),                           # two concurrent aborts
-         cfg('c07', 2, n=1000000, variant=0, append_ms=40, **{**base, 'ringf': 1, 'ringx': 1})]
+    full = {**base, 'ringf': 1, 'ringx': 1, 'append_ms': 40}
+    situations = [dict(n=1000000, variant=0, **base),                 # infinite acquisition, abort from a controller thread at every point
+                  dict(n=3, variant=0, **base),                       # finite: possibly already finished
+                  dict(n=1000000, variant=0, trigger=1, **base),      # camera waiting for a software trigger
+                  dict(n=1000000, variant=0, **full),                 # ring full, source asleep
+                  dict(n=1000000, variant=0, avg=2, **base),          # averaging active
+                  dict(n=1000000, variant=1, prog='mH', **base),      # client holds a mapped region across its own abort
+                  dict(n=3, variant=0, ctl_stop=1, **base),           # stop from another thread on a finite acquisition
+                  dict(n=1000000, variant=2, **base),                 # two concurrent aborts
+                  dict(n=1000000, variant=0, client_polls=1, **base)]  # client polling while another thread aborts
+    q = [cfg('c07', 'D2', **sit) for sit in situations]
+    q += [cfg('c07', 1, **situations[0]), cfg('c07', 'D3', **situations[3])]
     if tier == 'quick':
         return q
     t = list(q)
-    t += [cfg('c07', 2, n=1000000, variant=0, **base), cfg('c07', 2, n=1000000, variant=0, trigger=1, **base), cfg('c07', 2, n=1000000, variant=0, avg=2, **base),
-          cfg('c07', 2, n=3, variant=0, **base), cfg('c07', 2, n=1000000, variant=1, prog='mH', **base), cfg('c07', 1, n=1000000, variant=0, client_polls=1, **base),
-          cfg('c07', 1, n=1000000, variant=2, **base), cfg('c07', 1, n=1000000, variant=0, streams=2, **base),
-          cfg('c07', 3, n=1000000, variant=0, append_ms=40, **{**base, 'ringf': 1, 'ringx': 1})]
+    t += [cfg('c07', 'D3', **sit) for sit in situations]
+    t += [cfg('c07', 1, **sit) for sit in situations[1:5]]
+    t += [cfg('c07', 2, **situations[3]), cfg('c07', 'D2', n=1000000, variant=0, streams=2, **base), cfg('c07', 'D4', **situations[0])]
     return t
 
 
@@ -164,21 +197,25 @@ def c09_cfgs(tier):
     q = []
     for k in (0, 1, 2):
         for end in (0, 1):
-            q.append(cfg('c09', 1 if k == 1 else 0, camfail=k, end_abort=end, ringf=2, ringx=8, **base))
-            q.append(cfg('c09', 1 if k == 1 else 0, storefail=k, end_abort=end, ringf=2, ringx=8, **base))
-    q += [cfg('c09', 1, storefail=0, end_abort=0, ringf=1, ringx=1, append_ms=30, **base),   # source asleep on a full ring when the sink dies
-          cfg('c09', 1, storefail=1, end_abort=0, ringf=1, ringx=1, append_ms=30, **base)]
+            q.append(cfg('c09', 'D2', camfail=k, end_abort=end, ringf=2, ringx=8, **base))
+            q.append(cfg('c09', 'D2', storefail=k, end_abort=end, ringf=2, ringx=8, **base))
+    q += [cfg('c09', 'D2', storefail=0, end_abort=0, ringf=1, ringx=1, append_ms=30, **base),   # source asleep on a full ring when the sink dies
+          cfg('c09', 'D2', storefail=1, end_abort=0, ringf=1, ringx=1, append_ms=30, **base),
+          cfg('c09', 1, storefail=0, end_abort=0, ringf=2, ringx=8, **{**base, 'n': 2}),
+          cfg('c09', 1, camfail=1, end_abort=0, ringf=2, ringx=8, **{**base, 'n': 2})]
     if tier == 'quick':
         return q
-    t = []
+    t = list(q)
     for k in (0, 1, 2, 3):
         for end in (0, 1):
             for ring in ((2, 8), (1, 1), (6, 8)):
-                t.append(cfg('c09', 1, camfail=k, end_abort=end, ringf=ring[0], ringx=ring[1], **base))
-                t.append(cfg('c09', 1, storefail=k, end_abort=end, ringf=ring[0], ringx=ring[1], **base))
-                t.append(cfg('c09', 1, storefail=k, end_abort=end, ringf=ring[0], ringx=ring[1], append_ms=30, **base))
-    t += [cfg('c09', 2, storefail=0, end_abort=0, ringf=1, ringx=1, append_ms=30, **{**base, 'n': 2}), cfg('c09', 2, camfail=1, end_abort=0, ringf=2, ringx=8, **{**base, 'n': 2}),
-          cfg('c09', 1, storefail=1, end_abort=0, ringf=2, ringx=8, avg=2, **{**base, 'n': 4}), cfg('c09', 1, camfail=1, end_abort=0, ringf=2, ringx=8, client_polls=1, **base)]
+                t.append(cfg('c09', 'D2', camfail=k, end_abort=end, ringf=ring[0], ringx=ring[1], **base))
+                t.append(cfg('c09', 'D2', storefail=k, end_abort=end, ringf=ring[0], ringx=ring[1], **base))
+                t.append(cfg('c09', 'D2', storefail=k, end_abort=end, ringf=ring[0], ringx=ring[1], append_ms=30, **base))
+    t += [cfg('c09', 'D3', storefail=0, end_abort=0, ringf=1, ringx=1, append_ms=30, **base), cfg('c09', 'D3', camfail=1, end_abort=0, ringf=2, ringx=8, **base),
+          cfg('c09', 'D3', storefail=1, end_abort=1, ringf=2, ringx=8, **base),
+          cfg('c09', 'D2', storefail=1, end_abort=0, ringf=2, ringx=8, avg=2, **{**base, 'n': 4}), cfg('c09', 'D2', camfail=1, end_abort=0, ringf=2, ringx=8, client_polls=1, **base),
+          cfg('c09', 1, storefail=1, end_abort=0, ringf=2, ringx=8, **base), cfg('c09', 1, camfail=2, end_abort=1, ringf=2, ringx=8, **base)]
     return t
 
 
@@ -200,7 +237,42 @@ def c10_cfgs(tier):
     return t
 
 
+def c08_programs(depth):
+    import itertools
+    alpha = 'ABs0tmuSawX'
+    out = []
+    for k in range(1, depth + 1):
+        for t in itertools.product(alpha, repeat=k):
+            p = ''.join(t)
+            if 'A' not in p and 'B' not in p:
+                continue          # no device is ever opened
+            if 's' not in p and k > 2:
+                continue          # nothing runs: covered by the shorter prefixes
+            if 'uu' in p or 'ww' in p or 'mm' in p or 'tt' in p:
+                continue
+            if 'u' in p and 'm' not in p[:p.index('u')]:
+                continue
+            out.append(p)
+    return out
+
+
+def c08_cfgs(tier):
+    if tier == 'quick':
+        progs = c08_programs(3) + ['AsSBsS', 'AsBsS', 'AsAS', 'AsaXAsS', 'AsmSu', 'AssS', 'AsXAs', 'ABsSa', 'AsSsa', 'Asmau', 'AstS']
+        c = [cfg('c08', 'D1', prog=p) for p in progs]
+        c += [cfg('c08', 0, prog=p) for p in ('AsS', 'Asa', 'AsBS', 'AsAS', 'AsSsS', 'AsaAsS')]
+        c += [cfg('c08', 'D2', prog=p) for p in ('AsS', 'Asa', 'AsBS', 'AsAS', 'AsXAsS', 'AsmSu', '2sa', '2sSA')]
+        return c
+    progs = c08_programs(4) + [p + q for p in ('AsS', 'Asa', 'AsB') for q in ('BsS', 'XAs', 'sS', 'AsS', 'as')]
+    c = [cfg('c08', 'D1', prog=p) for p in progs]
+    c += [cfg('c08', 'D2', prog=p) for p in c08_programs(3)]
+    c += [cfg('c08', 0, prog=p) for p in c08_programs(2) + ['AsS', 'Asa', 'AsBS', 'AsAS', 'AsSsS', 'AsaAsS', 'AsBsS', 'AsXAsS']]
+    c += [cfg('c08', 'D2', prog=p) for p in ('2sa', '2sS', '2sSA', '2saBsS')]
+    return c
+
+
 TABLE = {
+    'C08': (c08_cfgs, 'all well-formed client programs up to the depth over {configure A/B/none, start, trigger, map, unmap, stop, abort, wait, shutdown+init} x schedules; oracle: device life-cycle automaton fed by the recording driver (page-protected devices), state reports'),
     'C04': (c04_cfgs, 'configurations x all schedules with <= bound deviations of start;[client polls];stop on the real runtime; oracle: storage log == frames delivered by the camera'),
     'C05': (c05_cfgs, 'shape sweep (all residues of the image size mod 8) x schedules; oracle: every packet at storage and every region mapped by the client is a chain of whole 8-byte aligned frames with the exact padded size and the camera\'s shape'),
     'C06': (c06_cfgs, 'client programs x acquisition sequences ended by stop/abort x schedules; oracle: consecutive ids, this acquisition\'s pixels, nothing delivered after stop/abort, map/unmap always succeed, storage unaffected'),
@@ -215,5 +287,6 @@ def run(pid, tier):
     exe = build_rt()
     fn, label = TABLE[pid]
     budget = C.deadline_s(3000 if tier == 'thorough' else 600)
-    run_cfgs(rep, exe, fn(tier), budget, label)
+    cfgs = fn(tier)
+    run_cfgs(rep, exe, cfgs, budget, label, par=C.NPROC if pid in ('C08', 'C05') else 1)
     rep.finish()
